@@ -48,4 +48,36 @@ HarnessAggPattern == IsAgg => /\ (ev.pattern \in CancelNames <=> ARealCancel)
                               /\ (ev.pattern = "valid" <=> \A i \in APos : AStructOK(i))
 (* the toy group is a homomorphic image: whatever the real equation accepts, the model's equation accepts *)
 HarnessAggModelImage == IsAgg => (ev.agg => AToyAgg)
+
+(* ------------------------------------------------------------------ C34 *)
+(* Events: one terminal scenario of ThresholdSig.tla executed with real random secrets.  The predicted *)
+(* verdicts are the ones ThresholdSig.tla proves for every polynomial (HonestSharesValidate,            *)
+(* AlteredSharesFail, PartyKeysVerify, EnoughSharesRecover, SplitNeedsAll, SosExact); with random real  *)
+(* secrets "fewer than t shares do not determine the signature" shows as "does not verify".              *)
+IsDeal == ev.ev = "ThrDeal"
+IsCombine == ev.ev = "ThrCombine"
+IsSos == ev.ev = "ThrSos"
+TParties == 1..ev.n
+Tampered(i, j) == Len(ev.tam) = 3 /\ ev.tam[1] = i /\ ev.tam[2] = j
+Needed == IF ev.kind = "split" THEN ev.n ELSE ev.t
+ElemsOf(f) == {f[i] : i \in 1..Len(f)}
+
+(* every honest share validates against the dealer's public polynomial, an altered one does not *)
+C34_SharesValidate == (IsDeal /\ ~IsKnown(ev)) =>
+    \A i, j \in TParties : (ev.valid[i][j] <=> ~Tampered(i, j))
+(* every party's aggregated key signs messages that verify under its group-derived public key *)
+C34_PartyKeysVerify == (IsDeal /\ ~IsKnown(ev)) => \A j \in TParties : ev.party_ok[j]
+(* >= t shares (any subset, any order): THE group signature, verifying under the group / original key; < t: not *)
+C34_Recovery == (IsCombine /\ ~IsKnown(ev)) =>
+    /\ (ev.k >= Needed) => (~ev.err /\ ev.verifies /\ ev.same_as_ref /\ ev.api_agree)
+    /\ (ev.k < Needed) => (~ev.verifies /\ ~ev.same_as_ref)
+(* ShareOrSigns.Validate: ok iff no bad entry; returns exactly the receivers whose share was revealed *)
+C34_Sos == (IsSos /\ ~IsKnown(ev)) =>
+    /\ (ev.ok <=> \A j \in TParties : ev.ent[j] \notin {"share_bad", "sign_bad"})
+    /\ (ev.ok => ElemsOf(ev.keys) = {j \in TParties : ev.ent[j] = "share_ok"})
+HarnessThrShape == (IsDeal \/ IsCombine \/ IsSos) =>
+    /\ ev.t >= 1 /\ ev.t <= ev.n /\ Len(ev.ids) = ev.n
+    /\ (IsCombine => ev.k = Len(ev.seq) /\ ev.k >= 1 /\ ElemsOf(ev.seq) \subseteq TParties /\ Cardinality(ElemsOf(ev.seq)) = ev.k)
+    /\ (IsDeal => Len(ev.valid) = ev.n /\ Len(ev.party_ok) = ev.n)
+    /\ (IsSos => Len(ev.ent) = ev.n)
 =============================================================================
